@@ -1,6 +1,8 @@
 // hsd: reactive raw-peer driver for C03 (TCP handshake).  ONE real stack
 // (10.0.0.1 / fd00::1) against a scripted peer (10.0.0.9 / fd00::9).
-//   hsd run <scenarios.json> <out.ndjson>
+//
+//	hsd run <scenarios.json> <out.ndjson>
+//
 // Scenario steps: listen / connect / send / settle / accept / up / state / probe.
 // Every peer segment is logged (`inj`) BEFORE it is handed to the stack, every
 // frame the stack emits is logged synchronously in the link tap (`emit`), so
@@ -14,7 +16,9 @@
 package main
 
 import (
+	"bufio"
 	"bytes"
+	"encoding/json"
 	"os"
 	"runtime"
 	"sync"
@@ -149,12 +153,28 @@ type runner struct {
 	peerISS  map[int]uint32
 	lastSyn  map[int]uint32 // sequence number of the last SYN sent per peer index
 	notIdle  int
+	out      *bufio.Writer // events are flushed at every settle so that a crash of the stack loses nothing observed so far
+	flushed  int
 }
 
 func (r *runner) log(ev M) {
 	r.mu.Lock()
 	r.evs = append(r.evs, ev)
 	r.mu.Unlock()
+}
+
+func (r *runner) flush() {
+	r.mu.Lock()
+	for ; r.flushed < len(r.evs); r.flushed++ {
+		b, err := json.Marshal(r.evs[r.flushed])
+		if err != nil {
+			vh.Fatal("marshal: %v", err)
+		}
+		r.out.Write(b)
+		r.out.WriteByte('\n')
+	}
+	r.mu.Unlock()
+	r.out.Flush()
 }
 
 func (r *runner) peerPort(pp int) int {
@@ -197,6 +217,7 @@ func (r *runner) settle(logit bool) bool {
 	}
 	if logit {
 		r.log(M{"ev": "settle", "idle": ok})
+		r.flush()
 	}
 	return ok
 }
@@ -555,14 +576,14 @@ func (r *runner) step(st M) {
 	}
 }
 
-func runScenario(si int, sc scenario, tr *vh.Trace) int {
+func runScenario(si int, sc scenario, out *bufio.Writer) int {
 	clock := wire.NewClock()
 	mtu := sc.MTU
 	if mtu == 0 {
 		mtu = 1500
 	}
 	h := wire.NewHost(clock, "s", []wire.NICSpec{{ID: 1, MTU: uint32(mtu), Addr4: []string{"10.0.0.1"}, Addr6: []string{"fd00::1"}}})
-	r := &runner{sc: sc, h: h, link: h.Links[1], conns: map[int]tcpip.Endpoint{}, stackISS: map[int]uint32{}, haveISS: map[int]bool{}, peerISS: map[int]uint32{}, lastSyn: map[int]uint32{}}
+	r := &runner{sc: sc, h: h, link: h.Links[1], conns: map[int]tcpip.Endpoint{}, stackISS: map[int]uint32{}, haveISS: map[int]bool{}, peerISS: map[int]uint32{}, lastSyn: map[int]uint32{}, out: out}
 	r.np, r.saddr, r.paddr = wire.ProtoIPv4, []byte(wire.A4("10.0.0.1")), []byte(wire.A4("10.0.0.9"))
 	if sc.V == 6 {
 		r.np, r.saddr, r.paddr = wire.ProtoIPv6, []byte(wire.A6("fd00::1")), []byte(wire.A6("fd00::9"))
@@ -589,6 +610,7 @@ func runScenario(si int, sc scenario, tr *vh.Trace) int {
 		r.step(st)
 	}
 	r.log(M{"ev": "end", "notidle": r.notIdle})
+	r.flush()
 	// tear down without leaving goroutines / timers behind: reset half-open and established
 	// connections from the peer side, drain the accept queue, close, wait for quiescence
 	r.link.OnEmit = nil
@@ -625,9 +647,6 @@ func runScenario(si int, sc scenario, tr *vh.Trace) int {
 	}
 	tcp.SynRcvdCountThreshold = 1000
 	r.settle(false)
-	for _, e := range r.evs {
-		tr.Log(e)
-	}
 	return r.notIdle
 }
 
@@ -641,11 +660,16 @@ func main() {
 	}
 	var scs []scenario
 	vh.LoadJSON(os.Args[2], &scs)
-	tr := vh.NewTrace(os.Args[3])
+	f, err := os.Create(os.Args[3])
+	if err != nil {
+		vh.Fatal("create %s: %v", os.Args[3], err)
+	}
+	out := bufio.NewWriterSize(f, 1<<16)
 	notIdle := 0
 	for i, sc := range scs {
-		notIdle += runScenario(i, sc, tr)
+		notIdle += runScenario(i, sc, out)
 	}
-	tr.Close()
+	out.Flush()
+	f.Close()
 	vh.Emit(vh.Result{Paths: len(scs), Extra: M{"not_idle": notIdle}})
 }
